@@ -232,7 +232,21 @@ let check_sequences acc st ~tier =
                | None -> bad := Printf.sprintf "compress failed at call %d (%d bytes)" i n
                | Some z -> (match Wr.c_decompress alg z with
                    | None -> bad := Printf.sprintf "decompress failed at call %d (%d bytes)" i n
-                   | Some d -> if d <> s then bad := Printf.sprintf "round trip differs at call %d (%d bytes)" i n))
+                   | Some d -> if d <> s then bad := Printf.sprintf "round trip differs at call %d (%d bytes)" i n);
+                 (* a decompression that FAILS in the middle of the sequence (payload damaged behind an intact frame
+                    header; a truncated frame) must leave nothing behind: whatever it returns, the round trips that
+                    follow still succeed (a context cached across calls and released on the error path shows here) *)
+                 let zl = String.length z in
+                 (* not for zlib (algorithm 2): its wrapper asserts on Z_DATA_ERROR and, on a truncated stream, doubles
+                    the output buffer until the allocation fails - both stop the process, so nothing follows (observation O9
+                    in DESIGN.md 11.5; a damaged block stopping the process is what C12 asks for) *)
+                 if zl >= 24 && i mod 2 = 1 && alg <> 2 then begin
+                   let dmg = Bytes.of_string z in
+                   Bytes.set dmg (zl / 2) (Char.chr (Char.code (Bytes.get dmg (zl / 2)) lxor 0x55));
+                   Bytes.set dmg (zl - 5) (Char.chr (Char.code (Bytes.get dmg (zl - 5)) lxor 0xff));
+                   ignore (Wr.c_decompress alg (Bytes.to_string dmg));
+                   ignore (Wr.c_decompress alg (String.sub z 0 (zl - 7)))
+                 end)
             end) sizes;
           if !bad = "" then "OK" else !bad) in
       (match r with
